@@ -97,7 +97,10 @@ STREAMS = {
 def reader_key(req, ans):
     t = ans.split(" ")
     errs = [x for x in t if x.startswith("E:")]
-    return "ops=%d %s" % (len(req.split(" ")) - 2, re.sub(r"\(.*", "", errs[0]) if errs else ("P" if "P" in t else "ok"))
+    nops = len(req.split(" ")) - 2
+    bucket = "1-5" if nops <= 5 else "6-15" if nops <= 15 else "16-40" if nops <= 40 else "41+"
+    first = re.sub(r"\(.*", "", errs[0]) if errs else ("P" if "P" in t else "no-error")
+    return "ops %s, first error: %s" % (bucket, first)
 
 
 def reader_oracle(req, ans):
@@ -170,6 +173,27 @@ def roundtrip_oracle(req, ans):
             if parse == "11" or parse in ("10", "01") or chk == "1":
                 return "the encoder rejects a name a parser/validator accepts (parse=%s check=%s)" % (parse, chk)
         return None
+    return None
+
+
+def rrset_gate_oracle(req, ans):
+    """C07, independent of the model: read the gates straight off the header bytes of the request"""
+    c = crash_oracle(req, ans)
+    if c:
+        return c
+    h = req.split(" ")[2]
+    if not ans.startswith("ok") or h == "-" or len(h) < 24:
+        return None
+    flags = int(h[4:8], 16)
+    qd = int(h[8:12], 16)
+    if not flags & 0x8000:
+        return "a record set was returned for a query (QR=0)"
+    if flags & 0x0200:
+        return "a record set was returned for a truncated message (TC=1)"
+    if qd != 1:
+        return "a record set was returned for a message with %d questions" % qd
+    if flags & 0xF:
+        return "a record set was returned although RCODE=%d" % (flags & 0xF)
     return None
 
 
@@ -300,6 +324,29 @@ PROPS = {
         streams=[dict(name="roundtrip"), dict(name="text", quick=20000), dict(name="name", quick=10000)],
         explanation="C05: parse_agree / check_total / decoded_len theorems; oracle: decode→re-parse must succeed with an equal name, "
                     "encode→decode must return the canonical spelling within 255 octets, encoder and parsers must accept the same strings.",
+    ),
+    "C07": dict(
+        level="proof", module="Rsdns.Props.C07",
+        technique="Lean 4 theorems over arbitrary bytes (gates of from_msg, specific errors, bit-level meaning of QR/TC/extended RCODE) + header-byte oracle",
+        level_text="For ARBITRARY byte strings: from_msg = ok implies QR=1, TC=0, QDCOUNT=1 and extended RCODE=0 (theorem rrset_gates); "
+                   "each violated gate yields its specific error with the offending value; QR/TC/RCODE getters are proved to be the RFC "
+                   "bit fields of the generated (source-extracted) expressions. Oracle: gates read straight from the request's header bytes.",
+        level_note="`extended RCODE` = header RCODE | (ext << 4) with ext from the first OPT record after the answer section, as the code "
+                   "does. Trusted: Lean kernel; model of record_set.rs/reader.rs (validated by the `rrset` stream); tools/extract.py.",
+        streams=[dict(name="rrset", impl_oracle=rrset_gate_oracle, quick=25000)],
+        explanation="C07: rrset_gates + rrset_err_* theorems; stream `rrset` covers all gate combinations and OPT placements.",
+    ),
+    "C18": dict(
+        level="proof", module="Rsdns.Props.C18",
+        technique="Lean 4 theorems (equality = equality of case-folded text, order = lexicographic order of it, hash feed = it) + differential correspondence with a recording hasher",
+        level_text="For all byte strings as name texts: eq ↔ folded texts equal; eq is an equivalence; cmp is the lexicographic order of "
+                   "the folded text (hence eq ↔ cmp = Equal, antisymmetric, transitive, total); equal names feed the hasher identical "
+                   "bytes; conversions preserve the text. Correspondence: Name and InlineName, ==, cmp, partial_cmp, Hash through a "
+                   "recording hasher, From both ways, == &str.",
+        level_note="PARTIAL: `eqstr_parse` (name == &str agrees with parsing the string first) is decided on the implementation by the "
+                   "`cmp` stream, not yet a theorem. Trusted: Lean kernel; model of the Eq/Ord/Hash impls (validated by `cmp` stream).",
+        streams=[dict(name="cmp")],
+        explanation="C18: eq_iff_fold, eq_iff_cmp, cmp_is_lex, cmp_swap, cmp_trans, hash_congr, conv_text.",
     ),
     "C10": dict(
         level="proof", module="Rsdns.Props.C10",
